@@ -354,6 +354,7 @@ Exec(b, i, s) ==
               (IF IsErr(r.v) \/ ~IsInty(r.v) \/ AsInt(r.v) \notin {0, 1} THEN Bad(r.s) ELSE Emit(r.s, [e |-> "dw", p |-> x.pin, v |-> AsInt(r.v)]))
         [] x.k = "awrite" -> LET r == Eval(x.e, s1) IN
               (IF IsErr(r.v) \/ r.v.t # "i" \/ r.v.v < 0 \/ r.v.v > 255 THEN Bad(r.s) ELSE Emit(r.s, [e |-> "aw", p |-> x.pin, v |-> r.v.v]))
+        [] x.k = "pmode" -> Emit(s1, [e |-> "pm", p |-> x.pin, m |-> x.m])
         [] x.k = "expr" -> LET r == Eval(x.e, s1) IN (IF IsErr(r.v) THEN Bad(r.s) ELSE r.s)
         [] x.k = "append" -> LET a == Lookup(s1, x.n)   r == Eval(x.e, s1) IN
               (IF IsErr(a) \/ a.t # "l" \/ IsErr(r.v) \/ r.v.t \in {"none", "l"} THEN Bad(r.s)
